@@ -70,6 +70,14 @@ class LAbs(LBase):
 
 
 @dataclass
+class LTwoSeq(LBase):
+    """Two sequence child fields (like the body / orelse of an if statement), a tuple and a list."""
+
+    body: tuple[LBase, ...] = ()
+    orelse: list[LBase] = field(default_factory=list)
+
+
+@dataclass
 class LFalsy(LLeaf):
     """A leaf that is falsy in a boolean context (e.g. an empty container node)."""
 
@@ -77,7 +85,7 @@ class LFalsy(LLeaf):
         return False
 
 
-LCLASSES: dict[str, type] = {c.__name__: c for c in (LBase, LLeaf, LSub, LTup, LList, LOpt, LReq, LMix, LNarrow, LFalsy, LAbs)}
+LCLASSES: dict[str, type] = {c.__name__: c for c in (LBase, LLeaf, LSub, LTup, LList, LOpt, LReq, LMix, LNarrow, LFalsy, LAbs, LTwoSeq)}
 
 
 def _is_recipe(val: Any) -> bool:
